@@ -140,6 +140,9 @@ def gen_c19(rng: random.Random) -> dict:
             events.append({"at": trig, "do": "poke", "what": "force_disconnect", "phase": pick(rng, ["pre", "post"])})
         else:
             events.append({"at": trig, "do": "start_actor", "actor": "closer", "phase": pick(rng, ["pre", "post"])})
+        if cause in ("force", "closer") and rng.random() < 0.4:
+            # another caller starts a new attempt right behind that close, before the attempt it ended has unwound
+            events.append({"at": dict(trig), "do": "start_actor", "actor": "second", "phase": "post"})
     if rng.random() < 0.2:
         # the caller gives up on a graceful disconnect that waits for the device (wait_for / cancel): the session it
         # could not end is still alive and must stay known to the client
@@ -153,7 +156,7 @@ def gen_c19(rng: random.Random) -> dict:
         t_on = rng.random() * 2.0
         events.append({"at": {"t": t_on}, "do": "fault", "kind": "knob", "name": "sock_fail", "value": pick(rng, ["nodelay", "getpeername"])})
         events.append({"at": {"t": t_on + pick(rng, [0.01, 0.5, 2.0])}, "do": "fault", "kind": "knob", "name": "sock_fail", "value": None})
-    actors = [{"id": "a0", "at": {"t": 0.0}, "steps": steps}, {"id": "closer", "at": "manual", "steps": [{"do": "disconnect"}]}]
+    actors = [{"id": "a0", "at": {"t": 0.0}, "steps": steps}, {"id": "closer", "at": "manual", "steps": [{"do": "disconnect"}]}, {"id": "second", "at": "manual", "steps": [{"do": pick(rng, ["start", "connect"]), "login": False}, {"do": "sleep", "d": 0.5}, {"do": pick(rng, ["start", "device_info"])}]}]
     extra: dict = {}
     if rng.random() < 0.25:
         # the application reconnects from inside its stop callback, at once or after yielding to the loop
